@@ -13,6 +13,7 @@ Pinned by AST (no output, abort when different):
   * set_combine_stderr: flag, empty() and re-feed all inside the channel lock;
   * _feed_extended: flag test + store inside the channel lock; _feed: in_buffer.feed;
   * _handle_request('exit-status'): store exit_status, THEN status_event.set(); recv_exit_status: wait, read;
+    send_exit_status: fixed-width add_string / add_boolean / add_int fields;
   * _wait_for_send_window: clamp to window, clamp to max packet - K, THEN debit the window;
   * _handle_eof / _set_closed closing both pipes; _handle_close unlinking the channel.
 """
@@ -161,6 +162,16 @@ assert self.status_event.is_set()
 return self.exit_status
 '''
 
+SEND_EXIT = '''
+m = Message()
+m.add_byte(cMSG_CHANNEL_REQUEST)
+m.add_int(self.remote_chanid)
+m.add_string('exit-status')
+m.add_boolean(False)
+m.add_int(status)
+self.transport._send_user_message(m)
+'''
+
 EOF = '''
 self.lock.acquire()
 try:
@@ -250,6 +261,10 @@ def generate(repo):
         raise ValueError("_handle_request: exit-status branch not found")
     _pin("_handle_request exit-status branch (store, then set)", _norm(br[0].body), EXIT_BRANCH)
     _pin("Channel.recv_exit_status", _norm(_method(chan, "recv_exit_status").body), RECV_EXIT)
+
+    # sender side of the exit status: fixed-width fields (a generic Message.add would switch to the adaptive
+    # marker+mpint form for values >= 0xff000000, which _handle_request's get_int does not read)
+    _pin("Channel.send_exit_status", _norm(_method(chan, "send_exit_status").body), SEND_EXIT)
 
     # ---- eof / close --------------------------------------------------------------------------
     _pin("Channel._handle_eof", _norm(_method(chan, "_handle_eof").body), EOF)
